@@ -1,6 +1,8 @@
 import Vflow.Proofs.CacheLemmas
 import Vflow.Model.Ipfix
 import Vflow.Model.V9
+import Vflow.Props.C03
+import Vflow.Props.C06
 /-!
 # C04 — data is decoded only with the same exporter's latest template
 
@@ -131,6 +133,80 @@ theorem v9_data_uses_lookup (addr : Bytes) (sid len start fuel : Nat) (st : V9.S
       (let res := V9.setLoop ⟨addr, sid, len, start, t⟩ fuel st
        V9.skipRest ⟨addr, sid, len, start, t⟩ res.1 res.2) := by
   simp [V9.setBody, V9.lookupTpl, hs, hl]
+
+/-! ## Histories of whole messages, any number of exporters
+
+`wfHistory` judges every message against the cache *as the decoder has left it* after the earlier
+messages (`Wire.*.expected`), i.e. through the concrete lookup: a data set is well formed when the
+template it was encoded with is what the cache returns for (this exporter, this id) at that point.
+Under that premise every message of the history decodes to exactly its expected records — whatever
+other exporters announced in between. (With a hash collision the premise fails for the victim's data
+set: that is K1, not hidden.) -/
+
+/-- decode a history of (exporter address, message) pairs in order -/
+def ipfixRun (c : Cache) : List (Bytes × Wire.Ipfix.Msg) → List Ipfix.Result × Cache
+  | [] => ([], c)
+  | (a, m) :: h =>
+    let r := Ipfix.decode c a (Wire.Ipfix.encodeMsg m)
+    let rest := ipfixRun r.2 h
+    (r.1 :: rest.1, rest.2)
+
+def ipfixExpectedRun (c : Cache) : List (Bytes × Wire.Ipfix.Msg) → List Ipfix.Result × Cache
+  | [] => ([], c)
+  | (a, m) :: h =>
+    let e := Wire.Ipfix.expected a c m
+    let rest := ipfixExpectedRun e.2 h
+    (.ok (Wire.Ipfix.expectedHdr m, e.1, []) :: rest.1, rest.2)
+
+def ipfixWfHistory (c : Cache) : List (Bytes × Wire.Ipfix.Msg) → Bool
+  | [] => true
+  | (a, m) :: h => Wire.Ipfix.wfMsg a c m && ipfixWfHistory (Wire.Ipfix.expected a c m).2 h
+
+/-- **C04 (histories, IPFIX)**: every message of a well-formed history — any exporters, any
+interleaving of announcements, re-announcements and data — decodes to exactly its expected records,
+and the cache evolves as the specification says -/
+theorem ipfix_history_roundtrip (h : List (Bytes × Wire.Ipfix.Msg)) :
+    ∀ c : Cache, ipfixWfHistory c h = true → ipfixRun c h = ipfixExpectedRun c h := by
+  induction h with
+  | nil => intro c _; rfl
+  | cons x xs ih =>
+    intro c hw
+    obtain ⟨a, m⟩ := x
+    simp only [ipfixWfHistory, Bool.and_eq_true] at hw
+    have hm := C03.message_roundtrip c a m hw.1
+    simp only [ipfixRun, ipfixExpectedRun, hm]
+    rw [ih _ hw.2]
+
+def v9Run (c : Cache) : List (Bytes × Wire.V9.Msg) → List V9.Result × Cache
+  | [] => ([], c)
+  | (a, m) :: h =>
+    let r := V9.decode c a (Wire.V9.encodeMsg m)
+    let rest := v9Run r.2 h
+    (r.1 :: rest.1, rest.2)
+
+def v9ExpectedRun (c : Cache) : List (Bytes × Wire.V9.Msg) → List V9.Result × Cache
+  | [] => ([], c)
+  | (a, m) :: h =>
+    let e := Wire.V9.expected a c m
+    let rest := v9ExpectedRun e.2 h
+    (.ok (Wire.V9.expectedHdr m, e.1, []) :: rest.1, rest.2)
+
+def v9WfHistory (c : Cache) : List (Bytes × Wire.V9.Msg) → Bool
+  | [] => true
+  | (a, m) :: h => Wire.V9.wfMsg a c m && v9WfHistory (Wire.V9.expected a c m).2 h
+
+/-- **C04 (histories, NetFlow v9)** -/
+theorem v9_history_roundtrip (h : List (Bytes × Wire.V9.Msg)) :
+    ∀ c : Cache, v9WfHistory c h = true → v9Run c h = v9ExpectedRun c h := by
+  induction h with
+  | nil => intro c _; rfl
+  | cons x xs ih =>
+    intro c hw
+    obtain ⟨a, m⟩ := x
+    simp only [v9WfHistory, Bool.and_eq_true] at hw
+    have hm := C06.packet_roundtrip c a m hw.1
+    simp only [v9Run, v9ExpectedRun, hm]
+    rw [ih _ hw.2]
 
 /-- non-vacuity: a three-step history over two exporters, no collision, re-announcement wins -/
 example :
